@@ -213,15 +213,15 @@ def contract_case(case):
             exact = np.array_equal((x + s) - s, x) and (cp + s) - s == cp \
                 and np.array_equal((cp + s) - (x + s), cp - x)
             tol = 0 if exact else 1e-9 * scale
-            if np.max(np.abs(Fs - F)) > tol:
+            if not np.max(np.abs(Fs - F)) <= tol:
                 viol("translation", f"{aname}:s={s}", "shifting abscissa "
                      "and contact point together changes the force by "
                      f"{np.max(np.abs(Fs - F)):.3e} (tol {tol:.1e})")
         # baseline additivity
         for db in (1e-10, -3e-9):
             Fb = md.model(make_params(mk, dict(vals, baseline=b + db)), x)
-            if np.max(np.abs(Fb - (F + db))) > 4 * np.max(ulp(np.abs(F)
-                                                              + abs(db))):
+            if not np.max(np.abs(Fb - (F + db))) <= 4 * np.max(
+                    ulp(np.abs(F) + abs(db))):
                 viol("baseline-additive", f"{aname}:db={db}",
                      f"max dev {np.max(np.abs(Fb - (F + db))):.3e}")
         # linear in the moduli
@@ -234,7 +234,7 @@ def contract_case(case):
             tol = 8 * ulp(np.abs(b) + c * np.abs(F - b) + np.abs(F))
             if c in (2.0, 0.5) and b == 0:
                 tol = np.zeros_like(dev)       # exact for powers of two
-            if np.any(dev > tol):
+            if not np.all(dev <= tol):
                 viol("modulus-linear", f"{aname}:c={c}", f"(F-b) does not "
                      f"scale by {c}: max dev {np.max(dev):.3e}")
         # continuity at contact / exact baseline out of contact
@@ -250,7 +250,7 @@ def contract_case(case):
                          f"|F-b| grows towards the contact point: {Fe!r} "
                          f"after {prev!r}")
                 prev = Fe
-            if prev is not None and abs(prev) > 1e-9 * scale:
+            if prev is not None and not abs(prev) <= 1e-9 * scale:
                 viol("contact-continuous", "limit", f"F-b at depth "
                      f"{depth * 2.0 ** -40:.1e} m is still {prev!r}")
             F0 = md.model(make_params(mk, vals),
@@ -276,8 +276,8 @@ def contract_case(case):
             wt = np.ones_like(x) if not w else \
                 np.minimum(1.0, np.abs(x - cp) / w)
             exp = (y - F) * wt
-            if np.max(np.abs(r - exp)) > 4 * np.max(ulp(np.abs(exp))
-                                                    + 5e-324):
+            if not np.max(np.abs(r - exp)) <= 4 * np.max(
+                    ulp(np.abs(exp)) + 5e-324):
                 viol("default-residual", f"{aname}:w={w}",
                      f"max dev {np.max(np.abs(r - exp)):.3e}")
     return out, ("model", mk)
@@ -330,7 +330,7 @@ def order_case(case):
         c.fit_model(model_key="verif_order", segment=seg, weight_cp=0,
                     params_initial=None)
         pf = c.fit_properties.get("params_fitted")
-        if pf is None or abs(pf["E"].value / 3000.0 - 1) > 1e-6:
+        if pf is None or not abs(pf["E"].value / 3000.0 - 1) <= 1e-6:
             out.append(V(PROP, "orientation", site="verif_order",
                          witness=f"fit-segment-{seg}", detail="fit of the "
                          "order-sensitive model does not recover E on "
@@ -367,7 +367,8 @@ def reregister_case(case):
                     F = md_i.model(P, xx)
                     r = md_i.residual(P, xx, rr.copy(), 0)
                     if not np.allclose(F, rr, rtol=1e-12, atol=0) or \
-                            np.max(np.abs(r)) > 1e-12 * np.max(np.abs(rr)):
+                            not np.max(np.abs(r)) <= 1e-12 * np.max(
+                                np.abs(rr)):
                         out.append(V(
                             PROP, "orientation", site="re-registered-key",
                             witness=f"registration#{i + 1}:{which}:{name}",
